@@ -20,7 +20,7 @@ checks TRUST their documented contracts), argument parsing of corner inputs.
 from __future__ import annotations
 
 import ast
-from typing import Dict, Optional
+from typing import Dict, List, Optional
 
 from ..model import Program, dotted, kwarg, const, NOCONST, AnalysisError
 from ..report import Result
@@ -332,42 +332,40 @@ def _helpers(prog: Program, res: Result) -> None:
     Unique[np.argsort(first-occurrence index)] - or the positions must be mapped back through that index."""
     for name in ("tt_intersect_rows", "tt_setdiff_rows"):
         fi = prog.func(f"pyttb_utils.{name}")
-        a_param = fi.params()[0]
-        uniq = {}
-        for n in ast.walk(fi.node):
-            if isinstance(n, ast.Assign) and isinstance(n.targets[0], ast.Tuple) and isinstance(n.value, ast.Call) \
-                    and (dotted(n.value.func) or "").split(".")[-1] == "unique" and n.value.args and const(kwarg(n.value, "return_index")) is True:
-                u, i = n.targets[0].elts[:2]
-                if isinstance(u, ast.Name) and isinstance(i, ast.Name):
-                    uniq[ast.unparse(n.value.args[0])] = (u.id, i.id)
+        a_param, b_param = fi.params()[0], fi.params()[1]
+        calls: List[tuple] = []
+        _rets, problems = _spaces(fi.node, calls)
         desc = f"{name} returns indices into its first argument (unique rows restored to the argument's own order before the look-up)"
-        call = [c for c in ast.walk(fi.node) if isinstance(c, ast.Call) and (dotted(c.func) or "") == "tt_ismember_rows" and len(c.args) == 2]
-        if not call or a_param not in uniq:
+        if not calls:
             res.undecided("HELP-dom", fi.short, desc, prog.loc(fi), "unique / ismember structure not recognised")
             continue
-        u, i = uniq[a_param]
-        src = ast.unparse(call[0].args[1]).replace(" ", "")
-        restored = f"{u}[np.argsort({i})]"
-        mapped_back = any(isinstance(n, ast.Subscript) and isinstance(n.value, ast.Name) and n.value.id == i and "location" in ast.unparse(n.slice)
-                          for n in ast.walk(fi.node))
-        if src == restored or mapped_back:
-            res.ok("HELP-dom", fi.short, desc, prog.loc(fi, call[0]), f"source = {src}")
-        elif src == u:
-            res.bad("HELP-dom", fi.short, desc, prog.loc(fi, call[0]),
-                    f"rows are looked up in `{u}` (np.unique's SORTED order): the returned positions index the sorted unique list, "
-                    f"not `{a_param}` - wrong whenever `{a_param}` is not stored in sorted order")
-        else:
-            res.undecided("HELP-dom", fi.short, desc, prog.loc(fi, call[0]), f"source = {src}")
-        # the search list follows B's own order (documented: sequence follows the second argument)
-        b_param = fi.params()[1]
-        if name == "tt_intersect_rows" and b_param in uniq:
-            ub, ib = uniq[b_param]
-            srch = ast.unparse(call[0].args[0]).replace(" ", "")
-            d2 = "tt_intersect_rows lists the common rows in the order of its second argument"
-            if srch == f"{ub}[np.argsort({ib})]":
-                res.ok("HELP-dom", fi.short, d2, prog.loc(fi, call[0]), f"search = {srch}")
+        node, search, source = calls[0]
+        src_t = ast.unparse(node.args[1]).replace(" ", "")
+        if isinstance(source, _SV) and source.kind == "listing" and source.align == f"orderU({a_param})":
+            res.ok("HELP-dom", fi.short, desc, prog.loc(fi, node), f"source = {src_t}: unique rows in the order of `{a_param}`")
+        elif isinstance(source, _SV) and source.kind == "listing" and source.align == f"sortedU({a_param})":
+            if not problems:
+                res.ok("HELP-dom", fi.short, desc, prog.loc(fi, node), f"source = {src_t} (sorted), positions mapped back through the first-occurrence index")
             else:
-                res.bad("HELP-dom", fi.short, d2, prog.loc(fi, call[0]), f"search list is `{srch}`: callers that rely on the documented order pair wrong entries")
+                res.bad("HELP-dom", fi.short, desc, prog.loc(fi, node),
+                        f"rows are looked up in `{src_t}` (np.unique's SORTED order): the returned positions index the sorted unique list, "
+                        f"not `{a_param}` - wrong whenever `{a_param}` is not stored in sorted order")
+        else:
+            res.undecided("HELP-dom", fi.short, desc, prog.loc(fi, node), f"source = {src_t}: {source!r}")
+        # the search list follows B's own order (documented: sequence follows the second argument)
+        if name == "tt_intersect_rows":
+            srch_t = ast.unparse(node.args[0]).replace(" ", "")
+            d2 = "tt_intersect_rows lists the common rows in the order of its second argument"
+            if isinstance(search, _SV) and search.kind == "listing" and search.align == f"orderU({b_param})":
+                res.ok("HELP-dom", fi.short, d2, prog.loc(fi, node), f"search = {srch_t}")
+            elif isinstance(search, _SV) and search.kind == "listing" and search.align == f"sortedU({b_param})":
+                res.bad("HELP-dom", fi.short, d2, prog.loc(fi, node),
+                        f"search list is `{srch_t}` (sorted unique rows): callers that rely on the documented order pair wrong entries")
+            elif isinstance(search, _SV) and search.kind == "listing":
+                res.bad("HELP-dom", fi.short, d2, prog.loc(fi, node),
+                        f"search list is `{srch_t}` ({search.align}): callers that rely on the documented order pair wrong entries")
+            else:
+                res.undecided("HELP-dom", fi.short, d2, prog.loc(fi, node), f"search = {srch_t}: {search!r}")
 
 
 # ------------------------------------------------------------------ HELP-space: index spaces of the row helpers
@@ -381,8 +379,9 @@ class _SV:
         return f"{self.kind}[{self.align}->{self.vals}]"
 
 
-def _spaces(fn: ast.FunctionDef):
-    """Evaluate a row helper over index spaces.  Returns (value of each return, list of (node, message) mismatches)."""
+def _spaces(fn: ast.FunctionDef, ismember_calls: Optional[list] = None):
+    """Evaluate a row helper over index spaces.  Returns (value of each return, list of (node, message) mismatches); the abstract
+    operands of every tt_ismember_rows call are appended to `ismember_calls` as (call, search, source)."""
     params = [a.arg for a in fn.args.args]
     env = {p: _SV("listing", f"rows({p})") for p in params}
     problems = []
@@ -393,6 +392,8 @@ def _spaces(fn: ast.FunctionDef):
             return env.get(e.id)
         if isinstance(e, ast.Tuple) and len(e.elts) == 1:
             return ev(e.elts[0])
+        if isinstance(e, ast.Tuple):
+            return tuple(ev(x) for x in e.elts)
         if isinstance(e, ast.Compare) and len(e.ops) == 1:
             l = ev(e.left)
             if l is not None and l.kind == "index":
@@ -428,6 +429,8 @@ def _spaces(fn: ast.FunctionDef):
                 return None
             if base == "tt_ismember_rows" and len(e.args) == 2:
                 a, b = ev(e.args[0]), ev(e.args[1])
+                if ismember_calls is not None and not any(c[0] is e for c in ismember_calls):
+                    ismember_calls.append((e, a, b))
                 if isinstance(a, _SV) and isinstance(b, _SV) and a.kind == "listing" and b.kind == "listing":
                     return (_SV("mask", a.align), _SV("index", a.align, b.align))
                 return None
@@ -485,8 +488,27 @@ def _spaces(fn: ast.FunctionDef):
                 elif isinstance(t, ast.Name):
                     env.pop(t.id, None)
             elif isinstance(st, ast.If):
-                # `if X.size > 0:` - the non-empty side carries the logic
+                # `if X.size > 0: <unique ...> else: <empty arrays>` (either way round): the side that computes something carries the
+                # logic; the other side binds empty arrays, which fit every space
+                before = dict(env)
                 block(st.body)
+                after_body = dict(env)
+                env.clear()
+                env.update(before)
+                block(st.orelse)
+                after_else = dict(env)
+                env.clear()
+                for k in set(after_body) | set(after_else):
+                    x, y = after_body.get(k), after_else.get(k)
+                    if x is before.get(k) and y is not None:
+                        env[k] = y
+                    elif y is before.get(k) and x is not None:
+                        env[k] = x
+                    elif x is not None and y is not None and repr(x) == repr(y):
+                        env[k] = x
+                    elif x is None or y is None:
+                        if (x or y) is not None:
+                            env[k] = x or y
             elif isinstance(st, ast.Return) and st.value is not None:
                 returns.append((st, ev(st.value)))
 
